@@ -41,7 +41,7 @@ def step(x):
 
 
 def pos(y):
-    return y if y >= 0 else 0.0
+    return y + 1 if y >= 0 else 0.0
 
 
 def loopinc(a):
